@@ -18,7 +18,7 @@ def print(*a, **kw):  # noqa: A001 - tolerate a closed stdout (e.g. `| head`): t
 
 
 VERIF = extract.VERIF
-EVID = os.path.join(VERIF, "evidence")
+EVID = os.path.join(os.environ["VERIF_WORK"], "evidence") if os.environ.get("VERIF_WORK") else os.path.join(VERIF, "evidence")
 KNOWN = os.path.join(VERIF, "known_findings.json")
 
 
@@ -93,6 +93,14 @@ class Ctx:
         r = self.rule(rid, desc, floor)
         r.guard(fn, **kw)
         return r
+
+
+def _inlined_log():
+    try:
+        from .inline import INLINED_LOG
+        return INLINED_LOG
+    except Exception:
+        return set()
 
 
 def load_known():
@@ -184,6 +192,7 @@ def main(argv):
                        "passed": sum(1 for i in r.instances if i["ok"]), "notes": r.notes[:20]} for r in ctx.rules],
             "analysed": analysed,
             "known_findings_matched": [i["key"] for _, i in knowns],
+            "new_helper_functions_inlined": sorted("%s <- %s" % x for x in _inlined_log())[:40],
             **ctx.extra,
         },
         "assumptions": ctx.assumptions + [
